@@ -210,9 +210,13 @@ def kind_name(r):
 
 def delivery_term(sc, d):
     st = d['step']
+    # what the reply Publisher answered is an INPUT of the model (p_pub_ok): scripted failures, and - rarely, when a loaded
+    # machine lets the teardown overtake a late redelivery - a real "Pub/Sub closed" error of GoChannel itself
+    pubrets = [e[1] for e in d['events'] if e[0] == 'pubret']
+    pub_ok = pubrets[0] if pubrets else not st['pubfail']
     cfg = '(PCfg %s %s %s)' % (C.coq_bool(sc['ack_errors']), C.coq_bool(sc['has_modify']), C.coq_bool(sc['has_errh']))
     inp = '(PIn true %s %s %s %s true true %s %s %s %s)' % (N(d['op']), N(max(d['res'], 0)), ('(Some %s)' % N(d['err'])) if d['haserr'] else 'None', N(d['nid']),
-                                                    C.coq_bool(not st['pubfail']), C.coq_bool(st['swallow']), EK[d.get('errkind', 0)], CX[d.get('ctxstate', 0)])
+                                                    C.coq_bool(pub_ok), C.coq_bool(st['swallow']), EK[d.get('errkind', 0)], CX[d.get('ctxstate', 0)])
     enc = C.coq_list(['(%s, %s)' % (N(max(d['enc'][0], 0)), optN(d['enc'][1]))])
     tr = []; final = 'Unsettled'; bad = []
     for e in d['events']:
